@@ -801,6 +801,10 @@ func worker(h *NtfnsHandler) {
 						// TODO: mark status failed
 						fin = true
 					}
+					if err == ErrTaskAbort {
+						// stopping; the persisted status resumes the import at next start
+						continue
+					}
 				}
 				if !fin {
 					h.taskChan.PushImport(task.walletId)
@@ -839,7 +843,9 @@ func (h *NtfnsHandler) asyncImport(walletId string) (finish bool, err error) {
 		relatedHashes = append(relatedHashes, ma.ScriptAddress())
 	}
 
-	h.suspend(false, "[asyncImport] run", logging.LogFormat{"walletId": walletId})
+	if !h.suspend(false, "[asyncImport] run", logging.LogFormat{"walletId": walletId}) {
+		return false, ErrTaskAbort
+	}
 	defer func() {
 		h.resume(false, "[asyncImport] stop", logging.LogFormat{"walletId": walletId, "finish": finish})
 	}()
@@ -1003,7 +1009,9 @@ func (h *NtfnsHandler) asyncRemove(walletId string) error {
 		return nil
 	}
 
-	h.suspend(true, "[asyncRemove-1] deleting balance, address, staking/binding histories", logging.LogFormat{"walletId": walletId})
+	if !h.suspend(true, "[asyncRemove-1] deleting balance, address, staking/binding histories", logging.LogFormat{"walletId": walletId}) {
+		return ErrTaskAbort
+	}
 	err = mwdb.Update(h.walletMgr.db, func(wtx mwdb.DBTransaction) error {
 		err := h.walletMgr.utxoStore.RemoveUnspentByWalletId(wtx, walletId)
 		if err != nil {
@@ -1034,7 +1042,9 @@ func (h *NtfnsHandler) asyncRemove(walletId string) error {
 		case <-h.quit:
 			return ErrTaskAbort
 		default:
-			h.suspend(true, "[asyncRemove-2] deleting credits, keystore", logging.LogFormat{"walletId": walletId})
+			if !h.suspend(true, "[asyncRemove-2] deleting credits, keystore", logging.LogFormat{"walletId": walletId}) {
+				return ErrTaskAbort
+			}
 			finish := false
 			var removedTx []*wire.Hash
 			err := mwdb.Update(h.walletMgr.db, func(wtx mwdb.DBTransaction) (err error) {
@@ -1236,11 +1246,18 @@ func (h *NtfnsHandler) OnTransactionReceived(tx *wire.MsgTx) error {
 	return nil
 }
 
-func (h *NtfnsHandler) suspend(log bool, msg string, fields logging.LogFormat) {
-	h.sigSuspend <- struct{}{}
+// suspend asks the handler goroutine to pause. It reports false if the handler
+// is stopping (nobody would take the request any more): the caller must give up.
+func (h *NtfnsHandler) suspend(log bool, msg string, fields logging.LogFormat) bool {
+	select {
+	case h.sigSuspend <- struct{}{}:
+	case <-h.quit:
+		return false
+	}
 	if log {
 		logging.VPrint(logging.INFO, msg, fields)
 	}
+	return true
 }
 
 func (h *NtfnsHandler) resume(log bool, msg string, fields logging.LogFormat) {
